@@ -57,6 +57,11 @@ ASSUMPTIONS = [
 # COMPLETED; it swallows the next matching intent and can re-run its `set`s later.  While the finding is open the
 # generated histories stop right after such a step (counted as excluded); set to False once it is fixed.
 F13_OPEN = True
+# Finding C14-F14 (open, reported): flow -> `do s1` -> `do s0` where s1 reaches the inner call while it is being
+# entered and s0 starts by waiting for the user: _call_subflow records s1's element after `do s0` as the next step
+# although s1 is interrupted by s0 (a bot/execute there is emitted at once; IndexError if `do s0` is s1's last element).
+# While open, histories stop before such a step is asserted (conservatively: whatever follows the inner `do`).
+F14_OPEN = True
 
 
 def budget(tier):
@@ -148,9 +153,12 @@ class Active:
 
 
 class Sim:
-    def __init__(self, program, fc, results, rt=None, acts=None, loop=None, allow_instant_end=False):
+    def __init__(self, program, fc, results, rt=None, acts=None, loop=None, allow_instant_end=False, allow_nested_wait=False):
         self.allow_instant_end = allow_instant_end
+        self.allow_nested_wait = allow_nested_wait
         self.excluded = 0
+        self.excluded14 = 0
+        self.cut = False
         self.p = program
         self.fc = fc
         self.rt, self.acts, self.loop = rt, acts, loop
@@ -171,7 +179,10 @@ class Sim:
 
     # -- real side ---------------------------------------------------------------------------
     def real(self):
-        steps = _repo()["flows"].compute_next_steps(list(self.history), self.fc, None, [])
+        try:
+            steps = _repo()["flows"].compute_next_steps(list(self.history), self.fc, None, [])
+        except Exception as ex:  # no decision at all for a history inside the stated subset
+            self.fail("exception", f"compute_next_steps raised {type(ex).__name__}: {ex}")
         c = canon(steps)
         self.evals.append((len(self.history), c))
         return steps, c
@@ -184,6 +195,7 @@ class Sim:
     def pump(self, act, answer, first=False):
         """Run the interpreter of `act` to its next bot/exec/user request; -> (sets, request | None)."""
         sets = {}
+        mark = len(self.trace)
         try:
             req = next(act.gen) if first else act.gen.send(answer)
             while req[0] == "set":
@@ -191,6 +203,16 @@ class Sim:
                 req = next(act.gen)
         except StopIteration:
             req = None
+        opened = 0
+        for t in self.trace[mark:]:
+            opened = opened + 1 if t == "do-enter" else max(0, opened - 1) if t == "do-return" else opened
+        if opened >= 2 and req is not None and req[0] == "user":
+            if self.allow_nested_wait:
+                self.labels.add("nested-subflow-starts-with-wait")
+            else:
+                self.labels.add("excluded:nested-subflow-starts-with-wait")
+                self.excluded14 += 1
+                self.cut = self.done = True
         return sets, req
 
     def resolve(self, choice):
@@ -213,6 +235,11 @@ class Sim:
     def user_step(self, choice):
         m = _repo()
         kind, intent, name = self.resolve(choice)
+        if kind == "follow" and any(a.wait == intent for a in self.stack):
+            # a left flow waits for the same intent (both are inside the same subflow): competing intents, out of scope
+            self.labels.add("stop:left-flow-waits-for-same-intent")
+            self.done = True
+            return
         before = len(self.history)
         n_exec0 = self.n_exec
         self.exec_calls = []
@@ -255,7 +282,7 @@ class Sim:
                     self.labels.add("stop:two-flows-active")
                     self.done = True
             self.drive(act, sets, req)
-        if self.rt is not None:
+        if self.rt is not None and not self.cut:
             self.leg2(before, event, self.results_used(n_exec0))
 
     def results_used(self, n0):
@@ -269,6 +296,8 @@ class Sim:
                 expected.append(["bot", req[1]])
             elif req is not None and req[0] == "exec":
                 expected.append(["exec", req[1], req[4], req[3]])
+            if self.cut:
+                return
             steps, c = self.real()
             if c != expected:
                 self.fail("next-step", f"flow {act.name}: interpreter expects {expected}, runtime decided {c}")
@@ -324,6 +353,10 @@ class Sim:
 
     # -- leg 2 -------------------------------------------------------------------------------
     def leg2(self, before, event, results):
+        if len(self.history) - before > 90:
+            # generate_events gives up ("Too many events") after 100 new events in one turn
+            self.labels.add("leg2-skipped:turn-of-more-than-90-events")
+            return None
         self.acts.queue = list(results)
         self.acts.calls = []
         new = self.loop.run_until_complete(self.rt.generate_events(self.history[:before] + [event]))
@@ -352,7 +385,7 @@ def _short(c):
 
 _choice = st.builds(
     lambda k, i: {"k": k, "i": i},
-    st.sampled_from(["follow"] * 7 + ["start"] * 2 + ["unknown"]),
+    st.sampled_from(["follow"] * 8 + ["start"] * 2 + ["unknown"]),
     st.integers(0, 2),
 )
 
@@ -360,7 +393,7 @@ _choice = st.builds(
 def _history():
     return st.fixed_dictionaries(
         {
-            "choices": st.lists(_choice, min_size=1, max_size=12),
+            "choices": st.lists(_choice, min_size=3, max_size=12),
             "results": st.lists(st.integers(-1, 4), min_size=1, max_size=6),
         }
     )
@@ -375,6 +408,7 @@ def strategy(tier):
             "other": _history(),
             "leg2": st.sampled_from([True, True, True, False]),
             "allow_instant_end": st.just(not F13_OPEN),
+            "allow_nested_wait": st.just(not F14_OPEN),
         }
     )
 
@@ -450,8 +484,8 @@ def enumerate_cases(tier):
 # ---------------------------------------------------------------------------------------------
 
 
-def _run_history(program, fc, hist, rt, acts, loop, allow_instant_end):
-    sim = Sim(program, fc, hist["results"], rt, acts, loop, allow_instant_end)
+def _run_history(program, fc, hist, rt, acts, loop, allow_instant_end, allow_nested_wait):
+    sim = Sim(program, fc, hist["results"], rt, acts, loop, allow_instant_end, allow_nested_wait)
     for choice in hist["choices"]:
         if sim.done:
             break
@@ -472,8 +506,9 @@ def prop(case):
         loop = asyncio.new_event_loop()
     try:
         allow = bool(case.get("allow_instant_end", False))
-        main = _run_history(program, fc, case["main"], rt, acts, loop, allow)
-        other = _run_history(program, fc, case["other"], rt, acts, loop, allow)
+        allow14 = bool(case.get("allow_nested_wait", False))
+        main = _run_history(program, fc, case["main"], rt, acts, loop, allow, allow14)
+        other = _run_history(program, fc, case["other"], rt, acts, loop, allow, allow14)
         # purity: every evaluation of the first history again, after the other history went through the same objects
         m = _repo()
         for n, c in main.evals:
@@ -516,5 +551,6 @@ def prop(case):
         "generate_events_calls": (len(main.calls2) * 2 + len(other.calls2)) if rt is not None else 0,
         "user_steps": sum(1 for e in main.history if e["type"] == "UserIntent"),
         "histories_cut_by_open_finding_F13": main.excluded + other.excluded,
+        "histories_cut_by_open_finding_F14": main.excluded14 + other.excluded14,
     }
     return ok(nt=nt, labels=sorted(labels), view=view, counters=counters)
